@@ -55,7 +55,12 @@ class Check:
 
     def summ(self, qualname: str, depth: Optional[int] = None, heap: bool = False):  # type: ignore
         self.functions_analysed.add(qualname)
-        return self.walker.summary(qualname, depth, heap)
+        s = self.walker.summary(qualname, depth, heap)
+        d = self.__dict__.get("_derived")
+        if d is None:
+            from .derived import Derived
+            d = self.__dict__["_derived"] = Derived(self.walker)
+        return d.apply(s)
 
     # ------------------------------------------------------------------ recording
     def rule(self, rule: str, desc: str) -> None:
